@@ -14,10 +14,16 @@ EXPLANATION = (
     "changed, which is what C02 forbids. R1d: where a verifier loop extracts the claimed value per element, no path "
     "inside the loop leads from the extraction to the next iteration without consuming the value (a `continue` that "
     "jumps over the comparison lets that claim through while the comparison is still present in the function). "
+    "R1p: in the verifiers that decide one (commitment, value) pair per loop iteration (Hyrax, the linear-code schemes) "
+    "a working variable holding scheme data is not carried from one pair into the next unless it is an accumulator "
+    "read after the loop. "
     "Decides these structural necessary conditions only, not the algebra.")
 RULE = ("instances = verifier anchors x {values, point, commitment fields}; container-typed parameters are followed "
         "to the element locals extracted from them (payload mode); an instance holds iff OUTCOME is reachable; "
         "non-trivial = the source exists in the analysed bodies")
+
+
+PER_CLAIM_LOOPS = ("hyrax.check", "linear_codes.check")
 
 
 def run(rep, ctx, tier):
@@ -37,6 +43,14 @@ def run(rep, ctx, tier):
         rep.count("values_extracted_in_loops", R1D.run_values(rep, ctx, a, "R1d"))
         # a verdict (or any other per-claim result) computed per loop iteration is accumulated, not overwritten
         rep.count("bodies_with_loops", R1D.run_last_value(rep, ctx, a, "R1L"))
+        if a.key in PER_CLAIM_LOOPS:
+            # the verifiers that decide one (commitment, value) pair per loop iteration: apart from the sponge, nothing
+            # that holds scheme data survives from one pair into the next unless it is an accumulator read after the loop
+            from ..rules import carried as R1P
+            nl, nc = R1P.run(rep, ctx, a.key, [a.body.id], a.ctx_adt, "R1p")
+            rep.count("R1p loops", nl)
+            if nl < 1:
+                rep.add("R1p", "%s:per-item-fresh:floor" % a.key, False, "no loop found in %s or what it calls (fail closed)" % a.key, a.body.span)
         if a.method in ("batch_check", "check_combinations"):
             # queries are never de-duplicated by label alone
             from ..rules import dedup as R5K
